@@ -20,7 +20,7 @@ import (
 // Fault enumeration: for every generated input every failure position is executed.
 
 var evC15 = ev.New("C15", "fault enumeration: for each generated input (CSV documents of C12's model, JSON written from generated frames, frames of 0-60 rows, SQL result sets) EVERY failure position is executed: "+
-	"ReadCSV/ReadJSON - the reader delivers the first k bytes (under the drawn chunking, error alone or together with the last bytes) then fails, k=0..len; ToCSV/ToJSON - the writer accepts k bytes then fails, k=0..len-1; "+
+	"ReadCSV/ReadJSON - the reader delivers the first k bytes (under the drawn chunking, error alone or together with the last bytes; the error is plain, io.ErrUnexpectedEOF, wraps io.EOF or is merely named EOF) then fails, k=0..len; ToCSV/ToJSON - the writer accepts k bytes then fails, k=0..len-1; "+
 	"ToSQL - Prepare/Exec of statement k fails; ReadSQL - Prepare, Query, Next at row k (k=0..rows), unsupported value at row k; "+
 	"oracle: no panic; reader side: an error, or a frame equal to the fault-free result; writer side: an error whenever the sink did not take the complete output; "+
 	"evaluations = input x position executions, exhaustive over positions per input (inputs are sampled); non-trivial case = an input with >=2 positions strictly inside the stream; distinct = FNV-64 of the input")
